@@ -22,6 +22,7 @@ T = tp.TypeVar("T")
 __all__ = (
     "AbstractMarshaller",
     "ContextT",
+    "NoneTypeMarshaller",
     "BytesMarshaller",
     "StringMarshaller",
     "IntegerMarshaller",
@@ -109,6 +110,23 @@ class NoOpMarshaller(AbstractMarshaller[T], tp.Generic[T]):
 
 
 BytesMarshaller = NoOpMarshaller[bytes]
+
+
+class NoneTypeMarshaller(AbstractMarshaller[None]):
+    """A marshaller for null values, anything but `None` is rejected."""
+
+    def __call__(self, val: None) -> None:
+        """Enforce the given value is `None`.
+
+        Args:
+            val: The value to enforce.
+
+        Raises:
+            ValueError: If `val` is not `None`.
+        """
+        if val is not None:
+            raise ValueError(f"{val!r} is not None")
+        return None
 
 
 class CastMarshaller(AbstractMarshaller[T], tp.Generic[T]):
